@@ -64,7 +64,15 @@ func (g *Gen) instr(b *ssa.BasicBlock, ins ssa.Instruction, st *State, r string)
 		g.define(an, "Int", "(+ "+st.A+" 1)")
 		st.A = an
 		et := x.Type().Underlying().(*types.Pointer).Elem()
-		g.storeType(st, g.vals[x].T, et, g.zeroTerm(et), "cell")
+		if g.writeOnlyArray(x) {
+			// variadic-argument arrays handed only to effect-free callees: contents are not modelled
+			g.stats.Abstractions["private-vararg-array-unmodelled"]++
+		} else if at, ok := et.Underlying().(*types.Array); ok && !isByteLike(at.Elem()) && at.Len() > 8 {
+			// large non-byte arrays (variadic argument arrays): contents left unconstrained
+			g.stats.Abstractions["large-array-zero-init-skipped"]++
+		} else {
+			g.storeType(st, g.vals[x].T, et, g.zeroTerm(et), "cell")
+		}
 	case *ssa.BinOp:
 		g.binop(x, st, r)
 	case *ssa.UnOp:
@@ -132,18 +140,22 @@ func (g *Gen) instr(b *ssa.BasicBlock, ins ssa.Instruction, st *State, r string)
 	case *ssa.MakeSlice:
 		g.makeSlice(x, st, r)
 	case *ssa.Store:
+		if a := rootAlloc(x.Addr); a != nil && g.writeOnlyArray(a) {
+			return
+		}
 		if !knownNonNil(x.Addr) {
 			g.nilCheck(x.Addr, r, "store through "+x.Addr.Name(), x.Pos())
 		}
 		g.storeType(st, g.val(x.Addr).T, x.Val.Type(), g.val(x.Val).T, g.addrHint(x.Addr))
 	case *ssa.Call:
-		g.siteClauses(b, x, st, r)
+		g.siteClauses(b, x, st, r, false)
 		g.callInstr(x, x, st, r)
+		g.siteClauses(b, x, st, r, true)
 	case *ssa.Go:
-		g.siteClauses(b, x, st, r)
+		g.siteClauses(b, x, st, r, false)
 		g.stats.Abstractions["go"]++
 	case *ssa.Defer:
-		g.siteClauses(b, x, st, r)
+		g.siteClauses(b, x, st, r, false)
 		g.defers = append(g.defers, x)
 		g.deferR[x] = r
 	case *ssa.RunDefers:
@@ -557,7 +569,8 @@ func (g *Gen) typeAssert(x *ssa.TypeAssert, st *State, r string) {
 	if _, isIface := at.Underlying().(*types.Interface); isIface {
 		okc := g.freshConst("taok", "Bool")
 		g.assume("(=> " + okc + " (not (= " + a.T + " nilif)))")
-		if it := at.Underlying().(*types.Interface); it.NumMethods() == 0 {
+		if it := at.Underlying().(*types.Interface); it.NumMethods() == 0 || types.AssignableTo(x.X.Type(), at) {
+			// the static type already implements the asserted interface: succeeds iff non-nil
 			g.assume("(= " + okc + " (not (= " + a.T + " nilif)))")
 		}
 		ok, val = okc, a.T
@@ -732,6 +745,18 @@ func (g *Gen) selectInstr(x *ssa.Select, st *State, r string) {
 		lo = "(- 1)"
 	}
 	g.assume(fmt.Sprintf("(and (<= %s %s) (< %s %d))", lo, idx, idx, len(x.States)))
+	if !x.Blocking {
+		// the default case is taken only if no receive case is ready (ghost *.chready on channels)
+		if gg, ok := g.prog.specs.Ghosts["*.chready"]; ok {
+			k := g.u.ghostKind(gg.Type)
+			for _, s := range x.States {
+				if s.Dir == types.RecvOnly {
+					ch := g.val(s.Chan).T
+					g.assume(fmt.Sprintf("(=> (= %s (- 1)) (not (select %s (fld %s %s))))", idx, g.heap(st, k), ch, smtI(int64(gg.ID))))
+				}
+			}
+		}
+	}
 	tup := []Val{{T: idx, Sort: "Int"}, {T: g.freshConst("selok", "Bool"), Sort: "Bool"}}
 	tt := x.Type().(*types.Tuple)
 	for i := 2; i < tt.Len(); i++ {
@@ -775,7 +800,7 @@ func (g *Gen) nextInstr(x *ssa.Next, st *State, r string) {
 }
 
 // siteClauses applies the contract's "site" clauses that match this call/go/defer instruction.
-func (g *Gen) siteClauses(b *ssa.BasicBlock, ins ssa.CallInstruction, st *State, r string) {
+func (g *Gen) siteClauses(b *ssa.BasicBlock, ins ssa.CallInstruction, st *State, r string, after bool) {
 	if len(g.con.Sites) == 0 {
 		return
 	}
@@ -818,12 +843,28 @@ func (g *Gen) siteClauses(b *ssa.BasicBlock, ins ssa.CallInstruction, st *State,
 		if ord != sc.Ord {
 			continue
 		}
+		if after != (sc.Kind == "ghostafter") {
+			continue
+		}
 		if env == nil {
 			vars := g.namesAt(b, idx)
 			// call arguments by the callee's formal names are also visible as $0, $1, ...
 			for i, a := range cc.Args {
 				if v, ok := g.valOpt(a); ok {
 					vars[fmt.Sprintf("$%d", i)] = v
+				}
+			}
+			if after {
+				if v, ok := ins.(ssa.Value); ok {
+					if rv, have := g.vals[v]; have {
+						if rv.Tuple != nil {
+							for i, t := range rv.Tuple {
+								vars[fmt.Sprintf("$ret%d", i)] = t
+							}
+						} else {
+							vars["$ret"] = rv
+						}
+					}
 				}
 			}
 			env = g.envFor(vars, st, st)
@@ -837,7 +878,7 @@ func (g *Gen) siteClauses(b *ssa.BasicBlock, ins ssa.CallInstruction, st *State,
 				name = fmt.Sprintf("%s@%d", name, g.counters[name]-1)
 			}
 			g.oblige(name, "site-assert", sc.Tags, r, t, sc.Src, ins.Pos())
-		case "ghost":
+		case "ghost", "ghostafter":
 			lv := env.tr(sc.LHS)
 			if !lv.isLv() || lv.GKind == "" {
 				panic(fmt.Errorf("site ghost update: %s is not a ghost location", sc.LHS))
@@ -853,4 +894,36 @@ func (g *Gen) siteClauses(b *ssa.BasicBlock, ins ssa.CallInstruction, st *State,
 			g.setHeap(st, lv.GKind, "(ite "+r+" (store "+g.heap(st, lv.GKind)+" "+lv.Addr+" "+t+") "+g.heap(st, lv.GKind)+")")
 		}
 	}
+}
+
+// writeOnlyArray: a private array allocation (variadic argument array) that the function itself never reads.
+func (g *Gen) writeOnlyArray(a *ssa.Alloc) bool {
+	if _, isArr := a.Type().Underlying().(*types.Pointer).Elem().Underlying().(*types.Array); !isArr {
+		return false
+	}
+	if !g.privateAlloc(a) {
+		return false
+	}
+	var noLoad func(v ssa.Value, d int) bool
+	noLoad = func(v ssa.Value, d int) bool {
+		if d > 4 || v.Referrers() == nil {
+			return false
+		}
+		for _, r := range *v.Referrers() {
+			switch x := r.(type) {
+			case *ssa.UnOp:
+				return false
+			case *ssa.IndexAddr:
+				if !noLoad(x, d+1) {
+					return false
+				}
+			case *ssa.FieldAddr:
+				if !noLoad(x, d+1) {
+					return false
+				}
+			}
+		}
+		return true
+	}
+	return noLoad(a, 0)
 }
